@@ -55,6 +55,8 @@ type Req struct {
 	// Interleave, when set (library path), runs once in the middle of signing: at the moment
 	// SignDoc asks the certificate authority for the CA bundle (after it has read the primary key
 	// version and its certificate, before it signs). It models a concurrent operator.
+	// KeepGoing is the global --keep_going flag (recoverable errors are tolerated).
+	KeepGoing  bool
 	Interleave func()
 	// WithCancel, when set, receives the cancel function of the context the (library) run executes
 	// under: the caller may cancel while the run is in flight.
@@ -62,7 +64,11 @@ type Req struct {
 }
 
 func (q Req) String() string {
-	return fmt.Sprintf("endorse(img=%s cand=%q ow=%v snap=%q dry=%v mo=%v snp=%v tdx=%v vmsas=%d shapes=%v ea=%v retries=%d cli=%v)",
+	kg := ""
+	if q.KeepGoing {
+		kg = " keep_going"
+	}
+	return fmt.Sprintf("endorse(img=%s cand=%q ow=%v"+kg+" snap=%q dry=%v mo=%v snp=%v tdx=%v vmsas=%d shapes=%v ea=%v retries=%d cli=%v)",
 		q.Image.Name, q.Candidate, q.Overwrite, q.SnapshotDir, q.DryRun, q.MeasurementOnly, q.SNP, q.TDX, q.LaunchVmsas, q.Shapes, q.EarlyAccept, q.Retries, q.ViaCLI)
 }
 
@@ -161,7 +167,7 @@ func endorseLib(a *worlda.Authority, vcs endorse.VersionControl, q Req) error {
 		defer cancel()
 		q.WithCancel(cancel)
 	}
-	ctx := output.NewContext(base, &output.Options{Quiet: true, Overwrite: q.Overwrite})
+	ctx := output.NewContext(base, &output.Options{Quiet: true, Overwrite: q.Overwrite, KeepGoing: q.KeepGoing})
 	return endorse.VirtualFirmware(endorse.NewContext(ctx, ec))
 }
 
@@ -219,6 +225,9 @@ func endorseCLI(a *worlda.Authority, vcs endorse.VersionControl, q Req, scratch 
 	}
 	if q.Overwrite {
 		args = append(args, "--overwrite")
+	}
+	if q.KeepGoing {
+		args = append(args, "--keep_going")
 	}
 	if q.SnapshotDir != "" {
 		args = append(args, "--snapshot_dir", q.SnapshotDir)
